@@ -5,6 +5,7 @@
 import BSVerif.Utf.StreamOracle
 import BSVerif.Props.C12
 import BSVerif.Utf.Progress
+import BSVerif.Props.C13Writer
 
 namespace BSVerif.Props.C13
 open BSVerif.Utf BSVerif.Utf.Spec BSVerif.Utf.StreamOracle
